@@ -50,7 +50,8 @@ RULE = ("for a configuration (grid of 1-4 variations, rep_max below / at / "
         "repetition or during a save."
         "The runner under test implements the per-combination start hook and logs every repetition executed without it. "
         "Progress output off / in files / on the (redirected) screen. "
-        "A fifth of the configurations run one job per combination (simulate(index)); a third of the guard cases also change a parameter of the interrupted runner itself (item syntax or add) before it is started again. ")
+        "A fifth of the configurations run one job per combination (simulate(index)); a third of the guard cases also change a parameter of the interrupted runner itself (item syntax or add) before it is started again. "
+        "The runner's iteration also returns a MISC result; in a fifth of the configurations another simulation (other results name, same directory) runs to completion and cleans up between the crash and the restart. ")
 ASSUMPTIONS = ["a crash is os._exit at the failpoint (no buffered data is "
                "flushed); torn writes keep the first b bytes of the file",
                "the restarted run uses the same parameters and a fresh process"]
@@ -128,6 +129,8 @@ class CrashRunner(SimulationRunner):
         r.update(uid)
         sr.add_result(r)
         sr.add_new_result("cnt", Result.SUMTYPE, 1)
+        # (a "last observation" result too: its update count does not grow by merging)
+        sr.add_result(Result.create("last", Result.MISCTYPE, uid))
         if f and f[0] == self.ncalls and f[1] == "after":
             self.log("crash rep", self.ncalls, "after")
             os._exit(137)
@@ -441,6 +444,8 @@ def gen_conf(rng, big):
     c.skip_p = float(rng.choice([0.0, 0.0, 0.25, 0.45])) if not big else 0.0
     # one job per combination, simulate(index), instead of one simulate() for all
     c.jobs = rng.random() < 0.2
+    # another simulation shares the directory between the crash and the restart
+    c.other_sim = (not c.jobs) and rng.random() < 0.2
     return c
 
 
@@ -451,7 +456,8 @@ def conf_tag(c):
             "virtual_clock_step": getattr(c, "clock_step", 0),
             "stop_at": getattr(c, "stop_at", None), "skip_probability": getattr(c, "skip_p", 0.0),
             "progress_output": getattr(c, "progress", None),
-            "one_job_per_combination": getattr(c, "jobs", False)}
+            "one_job_per_combination": getattr(c, "jobs", False),
+            "another_simulation_in_between": getattr(c, "other_sim", False)}
 
 
 def want_reps(c):
@@ -545,6 +551,27 @@ def decide(ctx, conf, wd, tag, kind, point, restarts=1):
             held = max(held, len(fin[v]))
         ctx.ev("durable-work-kept", held >= n, cls="saved-work-gone-at-crash",
                detail=d(variation=v, saved_earlier=n, held_at_crash=held))
+    if getattr(conf, "other_sim", False):
+        # before the restart ANOTHER simulation (other results name, same working
+        # directory and partial-results folder) runs to completion and cleans up
+        # after itself: it must leave this one's saved work alone
+        cb = Conf()
+        cb.__dict__.update(conf.__dict__)
+        cb.results_name = "other_" + conf.results_name
+        cb.delete_partial = True
+        cb.jobs = False
+        stb = run_child(cb, wd, {}, 5 * 10 ** 6, "other")
+        ctx.ev("restart-completes", stb == 0, cls="other-simulation-failed",
+               detail=d(status=stb, error=read_text(os.path.join(wd, "err_other.txt"))[-400:]))
+        for f in ("summary_other.json",):
+            try:
+                os.remove(os.path.join(wd, f))
+            except OSError:
+                pass
+        for dp, _, fs in os.walk(wd):
+            for f in fs:
+                if f.startswith("other_") and "_unpack_" not in f:
+                    os.remove(os.path.join(dp, f))
     status = run_child(conf, wd, {}, UID_RESTART, "second")
     err = read_text(os.path.join(wd, "err_second.txt"))
     ctx.ev("restart-completes", status == 0,
